@@ -1573,6 +1573,11 @@ class Module(ABC):
         if isinstance(self, View):
             scope = self._scope
             current_view = self._current_view
+            # Columns which exist only in the tables of this view (how parameters are
+            # shared by `make_trainable()`, and the index used by `.edge()`).
+            view_columns = ["controlled_by_param", "local_edge_index"]
+            node_columns = {c: self.nodes[c] for c in view_columns if c in self.nodes}
+            edge_columns = {c: self.edges[c] for c in view_columns if c in self.edges}
             # copy dict of new View. For some reason doing self = View(self)
             # did not work.
             self.__dict__ = View(
@@ -1582,6 +1587,12 @@ class Module(ABC):
             # retain the scope and current_view of the previous view
             self._scope = scope
             self._current_view = current_view
+            # ...and its view-specific columns: the view selects the same rows as
+            # before, so it must keep behaving like the view the user created.
+            for table, columns in [(self.nodes, node_columns), (self.edges, edge_columns)]:
+                for name, column in columns.items():
+                    if column.index.equals(table.index):
+                        table[name] = column
 
     def delete_recordings(self):
         """Removes all recordings from the module."""
